@@ -119,6 +119,24 @@ func (g *Gen) HistoryTwins() []E {
 	writes(3)
 	reads(3)
 	sweep()
+	// a twin with several indexes loses the one created last: the others were maintained all along, and answer
+	for i, c := range twins {
+		set := sets[i%len(sets)]
+		if len(set) < 2 {
+			continue
+		}
+		last := set[len(set)-1]
+		delete(g.idx[c], last)
+		evs = append(evs, E{"op": "DropIndex", "c": c, "f": B(last)})
+		for _, f := range set[:len(set)-1] {
+			if len(set) > 3 && !g.chance(0.5) {
+				continue
+			}
+			v := g.fieldValue(f)
+			mirror(E{"op": "FindAll", "c": twins[0], "q": []interface{}{[]interface{}{"sort", []interface{}{[]interface{}{B(f), []int{1, -1}[g.r.Intn(2)]}, []interface{}{B("_id"), 1}}}}})
+			mirror(E{"op": "Count", "c": twins[0], "q": []interface{}{[]interface{}{"where", []interface{}{"un", []string{"gte", "lte"}[g.r.Intn(2)], B(f), []interface{}{"lit", v}}}}})
+		}
+	}
 	// documents that lack the filtered / indexed field next to documents that hold nil there, alternating along the
 	// ids, with a second sort key that runs against the ids: sorts on (field, k) in every combination of directions
 	if free := g.freeIds(twins[0]); len(free) >= 4 {
